@@ -61,6 +61,8 @@ def len_formula(k, lo, hi, add, op, n):
             return T if x == 0 else f_atom(Cond(k, 'Gt', x - 1))
         if o == 'Lt':
             return F if x == 0 else f_atom(Cond(k, 'Le', x - 1))
+        if x == 0 and o in ('Eq', 'Ne'):
+            o = 'Le' if o == 'Eq' else 'Gt'
         return f_atom(Cond(k, o, x))
     if op == 'Ne':
         return f_not(len_formula(k, lo, hi, add, 'Eq', n))
@@ -97,6 +99,7 @@ class Frame:
     def __init__(self, fn, mod, selfav, top=False):
         self.fn, self.mod, self.selfav, self.top = fn, mod, selfav, top
         self.env = {}
+        self.defs = {}              # local -> the (simple) expression it was last assigned, locals expanded
         self.locals = local_names(fn) if fn is not None else set()
         self.returns = []
         self.loopdepth = 0
@@ -185,6 +188,8 @@ class Scanner:
                 av = sc.fr.env.get(n.id)
                 if isinstance(av, Unk) and av.expr is not None:
                     return copy.deepcopy(av.expr)
+                if n.id in sc.fr.defs and not isinstance(av, (Const, Line, Last)):
+                    return copy.deepcopy(sc.fr.defs[n.id])
                 if isinstance(av, Const) and isinstance(av.v, (int, float, str, bool, type(None))):
                     return ast.Constant(av.v)
                 if isinstance(av, Line):
@@ -559,6 +564,8 @@ class Scanner:
             for x, y in ((a, b), (b, a)):
                 if isinstance(x, Word) and isinstance(y, Const) and isinstance(y.v, str):
                     return KwTest([('word', y.v)], neg)
+                if isinstance(x, Pref) and isinstance(y, Const) and isinstance(y.v, str) and len(y.v) == x.n:
+                    return KwTest([('starts', y.v)], neg)
         if isinstance(op, (ast.In, ast.NotIn)) and isinstance(a, Word) and isinstance(b, Const):
             try:
                 vals = list(b.v) if isinstance(b.v, (tuple, list, dict)) else sorted(b.v)
@@ -635,9 +642,15 @@ class Scanner:
                 if hi == 4:
                     return Word()
                 if hi is not None and 0 < hi < 4:
-                    return Line(upper=base.upper)       # line[:3] == 'REM' is as good as startswith
+                    return Pref(hi)       # line[:3] == 'REM' is as good as startswith
             return Unk()
         if isinstance(base, Word):
+            if isinstance(sl, ast.Slice) and sl.step is None and (sl.lower is None or self.const_int(sl.lower) == 0):
+                hi = None if sl.upper is None else self.const_int(sl.upper)
+                if hi is None or hi >= 4:
+                    return Word()
+                if 0 < hi < 4:
+                    return Pref(hi)
             return Unk()
         if isinstance(base, ResList):
             if not isinstance(sl, ast.Slice):
@@ -1055,16 +1068,24 @@ class Scanner:
         self.emit(g, f'.card {lean_str(row)}')
 
     def worth_inlining(self, fn, recv, args, kw):
-        """follow a call into code of the package only when it can matter: a tracked value goes in, or (methods of the object
-        itself) it may touch the state the model keeps"""
-        if any(self.hot(a) or isinstance(a, (Line, LineParts, Word)) for a in list(args) + list(kw.values())):
-            return True
+        """follow a call into code of the package only when it can matter: a tracked value, the line, the state variable, a
+        flag, the diagnostic mode or the parser / card object itself goes in, or (methods of the object itself) the body
+        raises or touches the state the model keeps"""
+        for a in list(args) + list(kw.values()):
+            if self.hot(a) or isinstance(a, (Line, LineParts, Word, Pref, Last, Flag, SelfV, ShxV)):
+                return True
+            if isinstance(a, Bool) and a.f not in (T, F):
+                return True
         if isinstance(recv, SelfV) and recv.kind == 'card':
             return True
         if isinstance(recv, SelfV) and recv.kind == 'parser':
             for n in ast.walk(fn):
+                if isinstance(n, ast.Raise):
+                    return True
                 if isinstance(n, ast.Attribute) and isinstance(n.ctx, ast.Store) and isinstance(n.value, ast.Name) and n.value.id == 'self' \
                         and (n.attr in FLAGS or self.statevar == 'self.' + n.attr):
+                    return True
+                if isinstance(n, ast.Call) and isinstance(n.func, ast.Name) and n.func.id == 'setattr':
                     return True
         return False
 
@@ -1676,8 +1697,18 @@ class Scanner:
 
     def st_Assign(self, st, g):
         av = self.ev(st.value, g)
+        d = None
+        if len(st.targets) == 1 and isinstance(st.targets[0], ast.Name):
+            e = self.subst(st.value)
+            if assume.whitelisted(e) and len(ast.unparse(e)) < 200:
+                d = e
         for t in st.targets:
             self.bind(t, av, g, st)
+            if isinstance(t, ast.Name):
+                if d is not None:
+                    self.fr.defs[t.id] = d
+                else:
+                    self.fr.defs.pop(t.id, None)
 
     def st_AnnAssign(self, st, g):
         if st.value is not None:
